@@ -92,8 +92,8 @@ def compatible(profile: str, *texts) -> bool:
 # preconditions
 
 LIT_QUICK = ["(r)", "(p ?x)", "(not (p ?y))", "(q ?x ?y)", "(not (q ?y ?x))", "(= ?x ?y)",
-             "(not (= ?x ?y))", "(>= (g ?x) 1)", "(< (f) (g ?y))", "(p c)"]
-LIT_MORE = ["(not (r))", "(not (p ?x))", "(p ?y)", "(q ?y ?x)", "(not (q ?x ?y))", "(q ?x c)",
+             "(not (= ?x ?y))", "(>= (g ?x) 1)", "(<= (f) (g ?y))", "(p c)"]
+LIT_MORE = ["(< (f) (g ?y))", "(not (r))", "(not (p ?x))", "(p ?y)", "(q ?y ?x)", "(not (q ?x ?y))", "(q ?x c)",
             "(not (p c))", "(= ?x c)", "(= (f) 2)", "(> (+ (g ?x) (f)) (* 2 (g ?y)))",
             "(<= (h ?x ?y) 0.5)", "(not (q ?x c))"]
 LZ = {
@@ -125,6 +125,22 @@ def pre_formulas(tier: str):
         for b, c in combinations(L10, 2):
             if a not in (b, c):
                 yield f"(and {a} (or {b} {c}))", ["or"]
+    # the same literal inside a nested formula and directly in the enclosing one, in both source orders;
+    # nested operand written first
+    for b, c in combinations(L10, 2):
+        yield f"(and (or {b} {c}) {b})", ["or", "dup"]
+        yield f"(and {c} (or {b} {c}))", ["or", "dup"]
+        yield f"(and (or (and {b} {c}) {b}))", ["or", "dup", "or-and"]
+    for a in L10[:6]:
+        for b, c in combinations(L10[2:7], 2):
+            if a not in (b, c):
+                yield f"(and (or {b} {c}) {a})", ["or", "nested-first"]
+    for T, lz in LZ.items():
+        for T2 in ("t1", "t2"):
+            for z1, z2 in product(lz[:3], LZ[T2][:3]):
+                if z1 != z2:
+                    yield (f"(and (forall (?z - {T}) (and {z1})) (forall (?z - {T2}) (and {z2})))",
+                           ["forall", "forall-simple", "two-forall", f"forall-{T}"])
     for T, lz in LZ.items():
         for a in L10:
             for z in lz:
@@ -232,7 +248,22 @@ def eff_formulas(tier: str):
                                ["forall", "when", "when+forall", f"forall-{T}"])
 
 
+MUTUAL = [
+    "(and (increase (f) (g ?x)) (decrease (g ?x) (f)))",
+    "(and (assign (f) (g ?y)) (assign (g ?y) (f)))",
+    "(and (increase (f) 1) (assign (g ?x) (f)))",
+    "(and (assign (g ?x) (* (f) 2)) (decrease (f) (g ?x)))",
+    "(and (when (r) (assign (f) (g ?x))) (increase (g ?x) (f)))",
+    "(and (increase (f) (g ?y)) (when (not (r)) (assign (g ?y) (+ (f) 1))))",
+    "(and (assign (h ?x ?y) (f)) (increase (f) (h ?x ?y)))",
+    "(and (forall (?z - t1) (when (p ?z) (increase (g ?z) (f)))) (decrease (f) 1))",
+]
+
+
 def eff_programs(tier: str):
+    # effects that read what another effect of the same action writes (zero-arity and parameterised fluents)
+    for text in MUTUAL:
+        yield program("xy", "(and)", text, ["mutual"])
     for text, tags in eff_formulas(tier):
         if compatible("xy", text):
             yield program("xy", "(and)", text, tags)
@@ -251,6 +282,7 @@ def eff_programs(tier: str):
 # state universe of one (program, call)
 
 GRID = [Fraction(0), Fraction(1), Fraction(2), Fraction(1, 2), Fraction(-1)]
+BIG = [Fraction(20000), Fraction(20001)]  # one unit apart at a magnitude where a relative tolerance would matter
 FRAME_ATOMS = [("m", "o3"), ("q", "o2", "o2"), ("p", "o2"), ("m", "o1")]
 FRAME_FLUENT = (("h", "o1", "o2"), Fraction(7))
 
@@ -270,6 +302,8 @@ def universe(dom: RefDomain, action, args, objs: Dict[str, str], max_atoms=7, ma
     if n and (2 ** len(atoms)) * (gsize ** n) > max_states:
         caps.append("states>max")
     grid = GRID[:gsize]
+    if 1 <= n <= 2 and (2 ** len(atoms)) * ((gsize + 2) ** n) <= max_states:
+        grid = grid + BIG
     frame_atoms = [a for a in FRAME_ATOMS if a not in atoms and all(x in objs for x in a[1:])
                    and a[0] in dom.predicates and len(a) - 1 == len(dom.predicates[a[0]])][:2]
     frame_fl = {}
